@@ -137,12 +137,16 @@ def otherClass : OtherKind → TokClass × Cat
   | .harmony => (.SimpleToken, .HARMONY) | .fingering => (.SimpleToken, .FINGERING)
   | .otherText => (.SimpleToken, .OTHER) | .fieldComment => (.FieldCommentToken, .FIELD_COMMENTS)
 
+def zipNotes : List (Str × List Sub) → List (List Sub) → List Note
+  | tp :: r, d :: ds => ⟨tp.1, tp.2, d⟩ :: zipNotes r ds
+  | _, _ => []
+
 /-- **what the listener builds** for `render a` -/
 def tokOf : ACell → Tok
   | .elem e => .noteRest ⟨renderElem e, pdOf (durSubs (elemDur e)) e, addDecs [] (decsOf e)⟩
   | .chord es =>
-    let decs := addDecs [] (es.flatMap decsOf)      -- one list shared by all notes of the chord
-    .chord (joinSpace (es.map renderElem)) ((chordWalk [] es).map (fun tp => ⟨tp.1, tp.2, decs⟩))
+    .chord (joinSpace (es.map renderElem))
+      (zipNotes (chordWalk [] es) (es.map (fun e => addDecs [] (decsOf e))))   -- each note owns its decorations
   | .bar b => .simple .BarToken (barText b) .BARLINES (b.hidden || (renderBar b).contains '-')
   | .other k t => .simple (otherClass k).1 t (otherClass k).2 false
 
